@@ -159,7 +159,8 @@ pub fn run(ctx: &Ctx, model: &mut Model, rep: &mut Report) {
                 let at = *r.pick(&heads[..]);
                 let hollow = *r.pick(&["-", "1.", ">", "-\n-"][..]);
                 let mut out: Vec<String> = lines.iter().map(|l| l.to_string()).collect();
-                out.insert(at + 1, format!("\n{}\n", hollow));
+                // a paragraph after it keeps it from merging with a list or quote that follows
+                out.insert(at + 1, format!("\n{}\n\nafter the empty container\n", hollow));
                 text = out.join("\n") + "\n";
             }
         }
